@@ -11,6 +11,9 @@ C10 line protocol (fields separated by TAB; bytes lower-case hex; numbers decima
   trunc fin rsv opcode mask key payload n sizes         -> decode (split sizes (take n (encode f)))
   opc   n                                               -> `Opcode::try_from(n)` as decimal | none
   msg   new|binary payload                              -> hex of `Message::new(..)/new_binary(..).to_frame()`
+  msg   rx.<opcode>.<sizes> payload                     -> `<T|B><1|0>:<hex>`: the message RECEIVED from client frames
+        (first frame with data opcode 1|2, then continuation frames; `sizes` = `-` or fragment sizes joined by `+`, the
+        rest is the last fragment): `is_text()`, `text().is_some()`, hex of `to_frame()` of that object
 
 `rsv` is three characters `0`/`1`; `chunks` is `-` (no chunk) or hex strings joined by `,` (an empty
 string is an empty chunk = a `read` returning 0); `sizes` is `-` or decimal chunk sizes joined by `,`,
@@ -152,6 +155,22 @@ def dispatch (fn : String) (args : List String) (impl : String) : Option Verdict
     match unhex payload with
     | none => some { model := "BADARGS" }
     | some p =>
+      if kind.startsWith "rx." then
+        match kind.splitOn "." with
+        | ["rx", opcode, sizes] =>
+          let okSizes := sizes == "-" || (sizes.splitOn "+").all (fun x => x.toNat?.isSome)
+          if !(opcode == "1" || opcode == "2") || !okSizes then some { model := "BADARGS" } else
+          -- the type of a fragmented message is that of its first frame; the payload is the concatenation
+          let text := opcode == "1"
+          let flags := (if text then "T" else "B") ++ (if text && (utf8? p).isSome then "1" else "0") ++ ":"
+          let m := flags ++ hex (messageToFrame text p)
+          let want : Frame :=
+            { fin := true, rsv1 := false, rsv2 := false, rsv3 := false,
+              opcode := if text then .text else .binary, mask := false, length := p.length,
+              key := Key.zero, payload := p }
+          some { model := m, spec := some (impl == flags ++ hex (Spec.rfc6455Layout want)) }
+        | _ => some { model := "BADARGS" }
+      else
       let text := kind == "new" && (utf8? p).isSome
       let m := hex (messageToFrame text p)
       let want : Frame :=
